@@ -133,6 +133,11 @@ func runGuard(p *Prog, r *Report, spec *guardSpec) []guardAccess {
 					}
 				}
 			}
+			// literal bound to a local (f := func…) that is only ever passed to synchronous
+			// callees or called directly: the weakest state over those uses
+			if st, ok := boundLitState(fc, lit, spec, states); ok {
+				le = st
+			}
 			visit(lc, owner, le)
 		}
 	}
@@ -320,4 +325,88 @@ func baseFuncName(fc *FuncCtx) string {
 		return fc.Obj.Name()
 	}
 	return fc.Name
+}
+
+// boundLitState: lit is the sole definition of a local variable whose every other occurrence is
+// an argument of a synchronous callee or the function of a plain (not go/defer) call; the result
+// is the weakest lock state over those occurrences.
+func boundLitState(fc *FuncCtx, lit *ast.FuncLit, spec *guardSpec, states []LockState) (LockState, bool) {
+	if states == nil {
+		return LUnlocked, false
+	}
+	info := fc.Info()
+	var obj types.Object
+	for _, v := range fc.G.V {
+		switch n := v.Node.(type) {
+		case *ast.AssignStmt:
+			for i, rhs := range n.Rhs {
+				if ast.Unparen(rhs) == lit && len(n.Lhs) == len(n.Rhs) {
+					obj = objOf(info, n.Lhs[i])
+				}
+			}
+		case *ast.ValueSpec:
+			for i, rhs := range n.Values {
+				if ast.Unparen(rhs) == lit && i < len(n.Names) {
+					obj = info.Defs[n.Names[i]]
+				}
+			}
+		}
+	}
+	if obj == nil {
+		return LUnlocked, false
+	}
+	if rhs, _, _, ok := fc.SoleDefRHS(obj); !ok || ast.Unparen(rhs) != lit {
+		return LUnlocked, false
+	}
+	accounted := map[*ast.Ident]bool{}
+	st := LWrite
+	n := 0
+	for _, cs := range fc.AllCalls() {
+		v := fc.G.V[cs.V]
+		_, isDefer := v.Node.(*ast.DeferStmt)
+		_, isGo := v.Node.(*ast.GoStmt)
+		if id, ok := ast.Unparen(cs.Call.Fun).(*ast.Ident); ok && info.Uses[id] == obj && !isDefer && !isGo {
+			accounted[id] = true
+			n++
+			st = meetLock(st, states[cs.V])
+		}
+		for _, arg := range cs.Call.Args {
+			if id, ok := ast.Unparen(arg).(*ast.Ident); ok && info.Uses[id] == obj && cs.Fn != nil && spec.SyncCallees[cs.Fn.Name()] && !isDefer && !isGo {
+				accounted[id] = true
+				n++
+				st = meetLock(st, states[cs.V])
+			}
+		}
+	}
+	other := false
+	ast.Inspect(fc.Body, func(x ast.Node) bool {
+		if id, ok := x.(*ast.Ident); ok && info.Uses[id] == obj && !accounted[id] {
+			other = true
+		}
+		return true
+	})
+	if other || n == 0 {
+		return LUnlocked, false
+	}
+	return st, true
+}
+
+// meetLock returns the weaker of two lock states (write > read > unlocked/unknown).
+func meetLock(a, b LockState) LockState {
+	rank := func(s LockState) int {
+		switch s {
+		case LWrite:
+			return 2
+		case LRead:
+			return 1
+		}
+		return 0
+	}
+	if rank(b) < rank(a) {
+		a = b
+	}
+	if rank(a) == 0 {
+		return LUnlocked
+	}
+	return a
 }
